@@ -197,6 +197,13 @@ func (g *c1gen) assignStmt() []string {
 	if strings.ContainsAny(lv, ".[*") {
 		g.f("assign-path")
 	}
+	if g.fc != nil && g.fc.inLit && t.k == c1Struct && strings.HasPrefix(e, t.name+"{") && !strings.ContainsAny(lv, ".[*") {
+		// a struct literal assigned to a variable inside a function literal is lost when the variable is captured
+		// (region closure-struct-lit): go through a temporary
+		tmp := g.newName("v")
+		g.declare(&c1var{name: tmp, t: t})
+		return []string{tmp + " := " + e, lv + " = " + tmp}
+	}
 	return []string{lv + " = " + e}
 }
 
@@ -216,8 +223,7 @@ func (g *c1gen) opAssignStmt() []string {
 	}
 	switch t.k {
 	case c1String:
-		e, _ := g.expr(t, c)
-		return []string{lv + " += " + e}
+		return []string{lv + " += " + g.boundedStr(c)}
 	case c1Float:
 		e, _ := g.expr(t, c)
 		return []string{lv + " " + g.r.pick([]string{"+=", "-=", "*=", "/="}) + " " + e}
@@ -975,7 +981,7 @@ func (g *c1gen) shadowBlock(depth int) []string {
 	vs := g.visible()
 	for n := 0; n < 2 && len(vs) > 0; n++ {
 		v := vs[g.r.intn(len(vs))]
-		if v.fn != nil || v.ro || g.isGlobal(v) && g.r.bool() {
+		if v.fn != nil || v.ro || v.noShadow || g.isGlobal(v) && g.r.bool() {
 			continue
 		}
 		dup := false
@@ -1026,8 +1032,11 @@ func (g *c1gen) retLines() []string {
 	}
 	c := g.ectx(2)
 	var es []string
-	for _, t := range g.fc.results {
+	for i, t := range g.fc.results {
 		e, _ := g.expr(t, c)
+		if i > 0 && (strings.HasPrefix(e, "len(") || strings.HasPrefix(e, "cap(")) {
+			e = "0 + " + e // a direct builtin call as a later result is mis-placed by yaegi (region return-builtin)
+		}
 		es = append(es, e)
 	}
 	return []string{"return " + strings.Join(es, ", ")}
@@ -1151,7 +1160,7 @@ func (g *c1gen) funcBody(fn *c1fn, named []string, lit bool) ([]string, int) {
 		out = append(out, n+" = "+g.literal(fn.results[i], c1ectx{}))
 	}
 	for i, n := range named {
-		g.declare(&c1var{name: n, t: fn.results[i]})
+		g.declare(&c1var{name: n, t: fn.results[i], noShadow: true})
 	}
 	if fn.rec {
 		out = append(out, "if p0 <= 0 {")
